@@ -385,9 +385,19 @@ fn make_bracket_class(ct: CharacterClassType, positive: bool, icase: bool) -> ir
     ir::Node::Bracket(BracketContents { invert: false, cps })
 }
 
-fn add_class_atom(bc: &mut BracketContents, atom: ClassAtom) {
+fn add_class_atom(bc: &mut BracketContents, atom: ClassAtom, unicode_icase: bool) {
     match atom {
         ClassAtom::CodePoint(c) => bc.cps.add_one(c),
+        // With both `u` and `i`, WordCharacters also has U+017F and U+212A, whose canonical
+        // forms are `s` and `k`, so \W is the complement of that larger set.
+        ClassAtom::CharacterClass {
+            class_type: CharacterClassType::Words,
+            positive: false,
+        } if unicode_icase => {
+            let words = codepoints_from_class_positive(CharacterClassType::Words);
+            bc.cps
+                .add_set(unicode::add_icase_code_points(words).inverted());
+        }
         ClassAtom::CharacterClass {
             class_type,
             positive,
@@ -880,6 +890,7 @@ where
             invert,
             cps: CodePointSet::default(),
         };
+        let unicode_icase = self.flags.unicode && self.flags.icase;
 
         loop {
             match self.peek().map(to_char_sat) {
@@ -903,14 +914,14 @@ where
 
             // Check for a dash; we may have a range.
             if !self.try_consume('-') {
-                add_class_atom(&mut result, first);
+                add_class_atom(&mut result, first, unicode_icase);
                 continue;
             }
 
             let Some(second) = self.try_consume_bracket_class_atom()? else {
                 // No second atom. For example: [a-].
-                add_class_atom(&mut result, first);
-                add_class_atom(&mut result, ClassAtom::CodePoint(u32::from('-')));
+                add_class_atom(&mut result, first, unicode_icase);
+                add_class_atom(&mut result, ClassAtom::CodePoint(u32::from('-')), unicode_icase);
                 continue;
             };
 
@@ -935,9 +946,9 @@ where
             }
 
             // If it does not match a range treat as any match single characters.
-            add_class_atom(&mut result, first);
-            add_class_atom(&mut result, ClassAtom::CodePoint(u32::from('-')));
-            add_class_atom(&mut result, second);
+            add_class_atom(&mut result, first, unicode_icase);
+            add_class_atom(&mut result, ClassAtom::CodePoint(u32::from('-')), unicode_icase);
+            add_class_atom(&mut result, second, unicode_icase);
         }
     }
 
